@@ -131,6 +131,17 @@ func c16CheckEncoded(r *vhlib.Run, payload []byte, mode meta.FinalMode, parts []
 			r.Violate("roundtrip", o.String(), replay)
 		}
 	}
+	// FinalMode is documented to be valid "after Close or upon hitting io.EOF": read exactly the
+	// payload (no further Read that could observe io.EOF), Close, then look
+	if len(payload) > 0 {
+		mr := meta.NewReader(bytes.NewReader(enc))
+		buf := make([]byte, len(payload))
+		n, rerr := io.ReadFull(mr, buf)
+		cerr := mr.Close()
+		if rerr != nil || n != len(payload) || !bytes.Equal(buf, payload) || cerr != nil || mr.FinalMode != mode {
+			r.Violate("roundtrip", fmt.Sprintf("ReadFull of exactly the %d payload bytes, then Close: n=%d err=%v close=%v FinalMode=%d want %d", len(payload), n, rerr, cerr, int(mr.FinalMode), int(mode)), replay)
+		}
+	}
 	// ... and for every way the caller sizes its Read buffers (a header read with
 	// io.ReadFull, byte-at-a-time parsing): small fixed sizes and a random schedule
 	for _, bs := range []int{1, 3, 7, 0} {
